@@ -17,6 +17,9 @@ package httpserver
 //	                               kind under test: Init, then Inherit chains (which
 //	                               close the previous generation) while requests are
 //	                               parked inside the flow of the OLD generation.
+//	mode "rt"   (c11_rt_test.go)   real HTTPServer object LISTENING on the simulated
+//	                               network; raw HTTP/1.1 clients; hot-field updates must
+//	                               neither refuse a dial nor abort a request.
 //	mode "tc"   (c11_tc_test.go)   real TrafficController + real HTTPServer object
 //	                               (runtime/fsm, listener stubbed) + real Pipelines:
 //	                               create/apply/update/delete of pipelines A,B,C and
@@ -97,6 +100,7 @@ type c11Scenario struct {
 	Mux  *c11MuxSc  `json:"mux,omitempty"`
 	Pipe *c11PipeSc `json:"pipe,omitempty"`
 	TC   *c11TCSc   `json:"tc,omitempty"`
+	RT   *c11MuxSc  `json:"rt,omitempty"`
 }
 
 type c11KV struct {
@@ -978,16 +982,19 @@ func c11ExecMux(r *sim.Run, sc *c11MuxSc) {
 
 func c11Gen(rng *sim.Rand, tier string) interface{} {
 	sc := &c11Scenario{}
-	switch x := rng.Intn(10); {
-	case x < 4:
+	switch x := rng.Intn(20); {
+	case x < 7:
 		sc.Mode = "mux"
 		sc.Mux = c11GenMux(rng)
-	case x < 8:
+	case x < 14:
 		sc.Mode = "pipe"
 		sc.Pipe = c11GenPipe(rng)
-	default:
+	case x < 17:
 		sc.Mode = "tc"
 		sc.TC = c11GenTC(rng)
+	default:
+		sc.Mode = "rt"
+		sc.RT = c11GenRT(rng)
 	}
 	return sc
 }
@@ -1005,6 +1012,9 @@ func c11Exec(r *sim.Run, sci interface{}) {
 	case sc.Mode == "tc" && sc.TC != nil:
 		r.Probe("c11.mode.tc")
 		c11ExecTC(r, sc.TC)
+	case sc.Mode == "rt" && sc.RT != nil:
+		r.Probe("c11.mode.rt")
+		c11ExecRT(r, sc.RT)
 	}
 }
 
@@ -1018,9 +1028,9 @@ func TestVerifC11(t *testing.T) {
 		Exec:          c11Exec,
 		MaxSteps:      40000,
 		DeadlockClass: "C11.deadlock",
-		Rule: "a scenario is one of three modes. mux (40%): chain of 2-5 HTTPServer specs derived from one another by 0-3 edits (rules, rewrite targets, xForwardedFor, body limits, IP filters at three levels, cache size, identical re-apply), " +
-			"one updater task calling mux.reload, 1-4 client tasks with 4-24 requests whose backend handlers park; pipe (40%): one filter kind under test (RateLimiter, Proxy, Mock, Request/ResponseAdaptor, Validator, Fallback, CORSAdaptor, Request/ResponseBuilder, HeaderToJSON, CertExtractor) in a real Pipeline, " +
-			"2-4 generations (Init, then Inherit which closes the previous one; 15% of the updates keep the NAME of the filter under test and change its KIND), requests park before / inside / after the filter under test while the updater inherits; tc (20%): real TrafficController with a real HTTPServer object and Pipelines A,B,C, two updater tasks issuing create/apply/update/delete (and identical re-apply) on disjoint names, requests and GetHandler lookups; " +
+		Rule: "a scenario is one of four modes (mux 35%, pipe 35%, tc 15%, rt 15%; rt = the mux scenario shape against a LISTENING HTTPServer runtime over the simulated network: raw HTTP/1.1 clients, only hot fields change, no dial may be refused and no connection may end without a response). mux: chain of 2-5 HTTPServer specs derived from one another by 0-3 edits (rules, rewrite targets, xForwardedFor, body limits, IP filters at three levels, cache size, identical re-apply), " +
+			"one updater task calling mux.reload, 1-4 client tasks with 4-24 requests whose backend handlers park; pipe: one filter kind under test (RateLimiter, Proxy, Mock, Request/ResponseAdaptor, Validator, Fallback, CORSAdaptor, Request/ResponseBuilder, HeaderToJSON, CertExtractor) in a real Pipeline, " +
+			"2-4 generations (Init, then Inherit which closes the previous one; 15% of the updates keep the NAME of the filter under test and change its KIND), requests park before / inside / after the filter under test while the updater inherits; tc: real TrafficController with a real HTTPServer object and Pipelines A,B,C, two updater tasks issuing create/apply/update/delete (and identical re-apply) on disjoint names, requests and GetHandler lookups; " +
 			"non-trivial = a request overlapped an update that changes its answer, or ran on a generation that had already been inherited from / closed, or started after an update that changes its answer; distinct = distinct (specs, ordered request/answer history)",
 		Real: []string{"pkg/object/httpserver mux (newMux, reload, ServeHTTP, search, cache), runtime + HTTPServer object (mode tc)", "pkg/object/pipeline Pipeline (Init, Inherit, Close, Handle)", "pkg/object/trafficcontroller (Create/Apply/Update/Delete Pipeline and TrafficGate, Namespace.GetHandler)",
 			"pkg/filters: ratelimiter, proxy (pools, load balancers, memory cache, resilience wrappers), mock, requestadaptor, responseadaptor, validator, fallback, corsadaptor, builder, headertojson, certextractor", "pkg/supervisor Spec / ObjectEntity", "pkg/util/ratelimiter, pkg/util/ipfilter, pkg/protocols/httpprot, pkg/context"},
